@@ -198,12 +198,13 @@ Definition wstep (cap : nat) (s : wstate) (l : wlabel) : option wstate :=
     | _, _ => None
     end
   | REof =>
-    match ws_rhand s, ws_input s with
-    | Some (b, false), [] =>
-      (* a truncated last frame may have clobbered the held buffer; it is never sent *)
-      Some (mkWS [] (ws_spent s) (ws_queue s) None (ws_whand s) true (ws_done s)
+    match ws_rhand s, ws_input s, ws_closed s with
+    | Some (b, false), [], false =>
+      (* a truncated last frame may have clobbered the held buffer; the reader returns still
+         holding it: it is never sent *)
+      Some (mkWS [] (ws_spent s) (ws_queue s) (Some (b, false)) (ws_whand s) true (ws_done s)
                  (set_contents (ws_contents s) b []) (ws_files s) (ws_cur s))
-    | _, _ => None
+    | _, _, _ => None
     end
   | RSend =>
     match ws_rhand s with
